@@ -95,7 +95,7 @@ PROFILES = {
     },
     "C08": {
         "n_models": [1],
-        "want": [{"stochastic": False}, {"stochastic": False}, {"stochastic": False, "filter": True}, {"stochastic": True}],
+        "want": [{"stochastic": False}, {"stochastic": False}, {"stochastic": False, "filter": True}, {"stochastic": False, "filter": True, "periods": (3, 4)}, {"stochastic": True}],
         "workers": [1, 2],
         "fault_free_p": 0.85,
         "restart_p": 0.1,
@@ -131,6 +131,19 @@ class _B:
         return i
 
 
+def _loop_pattern(rng, k, length):
+    """Indices into a list of k call signatures: sweeps over all of them with returns to the base
+    point in between (base, neighbours, base, trial, base, ...), then random revisits."""
+    out = [0]
+    others = list(range(1, k))
+    rng.shuffle(others)
+    cut = rng.randint(1, len(others)) if others else 0
+    out += others[:cut] + [0] + others[cut:] + [0]
+    while len(out) < length:
+        out.append(rng.randrange(k) if rng.random() < 0.6 else 0)
+    return out[: max(length, min(len(out), 2 * k + 2))]
+
+
 def _sig_solve(mid, pid):
     return f"SOLVE|{mid}|{pid}"
 
@@ -155,7 +168,7 @@ def make_run_plan(run_seed: int, profile: str, tier: str = "quick", overrides: d
     fault_kinds = [] if fault_free else [k for k in ["log_error", "log_stall", "callback_raise", "cancel"] if rng.random() < 0.6]
     if not fault_free and not fault_kinds:
         fault_kinds = [rng.choice(["log_error", "callback_raise", "cancel"])]
-    extras = {k: rng.random() < 0.5 for k in ["retype", "mutate", "clear_caches", "gc", "dup_handles"]}
+    extras = {k: rng.random() < 0.5 for k in ["retype", "mutate", "clear_caches", "gc", "dup_handles", "transient"]}
     restart = rng.random() < (max(P["restart_p"], 0.75) if n_models == 2 else P["restart_p"])
     spy = rng.choice(P["spy"])
     quanta_mix = rng.choice(list(QUANTA_MIXES))
@@ -163,6 +176,11 @@ def make_run_plan(run_seed: int, profile: str, tier: str = "quick", overrides: d
     if big and tier == "thorough":
         P["batch_size"] = rng.choice([(20000, 20000), (50000, 50000), (100000, 100000)])
     fresh_ref = rng.random() < P["fresh_ref_p"]
+    # share of function objects built with debug_mode=True: the first such build raises the level of
+    # the process-global "lcm" logger for good; with 0.0 nothing is ever logged in the run
+    debug_p = rng.choice(P.get("debug_p", [0.0, 0.25, 0.7, 0.7, 1.0]))
+    if debug_p == 0.0 and fault_kinds:
+        fault_kinds = [k for k in fault_kinds if not k.startswith("log_")] or ["cancel"]  # nothing is logged
     default_leaf = rng.choice(["float", "float", "np", "np0d", "jax", "int"])
 
     # ---------------------------------------------------------------- models, params, batches
@@ -183,9 +201,9 @@ def make_run_plan(run_seed: int, profile: str, tier: str = "quick", overrides: d
                 b.params[f"{mid}p{j}"] = {"model": mid, "values": catalogue.perturb_params(rng, recipe, meta, b.params[f"{mid}p0"]["values"], sparsity)}
             else:
                 b.params[f"{mid}p{j}"] = {"model": mid, "values": catalogue.gen_params(rng, recipe, meta, sparsity)}
-        fd_pid = None
-        if rng.random() < P.get("fd_neighbour_p", 0.5):
-            fd_pid = f"{mid}p{j + 1}"
+        # finite-difference neighbours of p0 (what the gradient of an optimiser evaluates)
+        for q in range(rng.choice(P.get("n_fd", [0, 1, 1, 3, 5]))):
+            fd_pid = f"{mid}p{j + 1 + q}"
             b.params[fd_pid] = {"model": mid, "values": catalogue.fd_neighbour_params(rng, recipe, meta, b.params[f"{mid}p0"]["values"]), "fd_of": f"{mid}p0"}
         if meta["stochastic"] and rng.random() < P.get("f32_shocks_p", 0.15):
             # transition arrays supplied in single precision (values exactly representable, so that
@@ -204,6 +222,10 @@ def make_run_plan(run_seed: int, profile: str, tier: str = "quick", overrides: d
         for j in range(nb):
             lo, hi = P["batch_size"]
             n = rng.randint(lo, hi)
+            if P.get("membership") and j > 0:
+                # agents simulated alone or in very small company: the canonical reference for "depends
+                # only on its own state", and batches in which nobody else moves
+                n = rng.choice([1, 1, 2, 3, n, n])
             if big:
                 agents = {"gen_seed": rng.randrange(2**31), "n": n, "on_grid_bias": P["on_grid_bias"]}
             elif P.get("membership") and j > 0:
@@ -267,6 +289,12 @@ def make_run_plan(run_seed: int, profile: str, tier: str = "quick", overrides: d
             if rng.random() < 0.3 and tgt_pool:
                 targets = rng.sample(tgt_pool, rng.randint(1, min(2, len(tgt_pool))))
             bid = rng.choice(bids)
+            if targets and len(tgt_pool) >= 2 and rng.random() < 0.5:
+                # the same call with a larger / smaller set of additional targets
+                more = [t for t in tgt_pool if t not in targets]
+                comp = (targets + [rng.choice(more)]) if (more and (len(targets) == 1 or rng.random() < 0.5)) else targets[:-1]
+                if comp:
+                    sigs.append({"kind": "SIM", "mid": mid, "pid": pid, "bid": bid, "seed": None, "vp": vp, "targets": comp})
             if P.get("seeds_per_batch"):
                 for sd in rng.sample(range(1, 10**6), P["seeds_per_batch"]):
                     sigs.append({"kind": "SIM", "mid": mid, "pid": pid, "bid": bid, "seed": sd, "vp": vp, "targets": targets})
@@ -293,10 +321,19 @@ def make_run_plan(run_seed: int, profile: str, tier: str = "quick", overrides: d
                 if s0["vp"] != s0["pid"]:
                     s0["vp"] = s0["pid"]
                 s1["vp"] = other
-            for x in (s0, s1):
+            slist = [s0, s1]
+            fds = [q for q, o in fd_of.items() if o in (s0["pid"], s1["pid"]) and q not in (s0["pid"], s1["pid"])]
+            if fds and rng.random() < 0.7:
+                # gradient-style loop: base point, its finite-difference neighbours, a trial point
+                for q in fds[:5]:
+                    x = dict(s0, pid=q)
+                    if x["kind"] == "SIM":
+                        x["vp"] = q
+                    slist.append(x)
+            for x in slist:
                 if x not in sigs:
                     sigs.append(x)
-            est_loops.append((s0, s1))
+            est_loops.append(slist)
     # every SIM needs the solution for its vp: make sure those SOLVE signatures exist
     have = {(s["mid"], s["pid"]) for s in sigs if s["kind"] == "SOLVE"}
     for s in list(sigs):
@@ -339,7 +376,7 @@ def make_run_plan(run_seed: int, profile: str, tier: str = "quick", overrides: d
         key = (mid, target, fresh_tag)
         if key not in ref_handles:
             hid = f"ref_{mid}_{target}" + (f"_{fresh_tag}" if fresh_tag is not None else "")
-            op = build_op(hid, mid, target, jit=rng.random() < 0.7, debug=rng.random() < 0.7)
+            op = build_op(hid, mid, target, jit=rng.random() < 0.7, debug=rng.random() < debug_p)
             ref_ops.append(op)
             ref_handles[key] = hid
         return ref_handles[key]
@@ -385,7 +422,7 @@ def make_run_plan(run_seed: int, profile: str, tier: str = "quick", overrides: d
         for k, (mid, target) in enumerate(cfgs[:5]):
             hid = f"h{inc_index}_{k}"
             w = rng.randrange(n_workers)
-            op = build_op(hid, mid, target, jit=rng.random() < 0.6, debug=rng.random() < 0.7, worker=w)
+            op = build_op(hid, mid, target, jit=rng.random() < 0.6, debug=rng.random() < debug_p, worker=w)
             if inc_index == 1 and len(mids) == 2 and mid == mids[1] and mids[0] in first_build:
                 op["needs"] = [first_build[mids[0]]]
             first_build.setdefault(mid, op["id"])
@@ -430,7 +467,7 @@ def make_run_plan(run_seed: int, profile: str, tier: str = "quick", overrides: d
                     sh = [h for h in handles if h["mid"] == s["mid"] and h["target"] == "solve"]
                     if not sh:
                         hid = f"h{inc_index}_x{len(handles)}"
-                        bo = build_op(hid, s["mid"], "solve", jit=rng.random() < 0.6, debug=rng.random() < 0.7, worker=w)
+                        bo = build_op(hid, s["mid"], "solve", jit=rng.random() < 0.6, debug=rng.random() < debug_p, worker=w)
                         ops.append(bo)
                         handles.append({"hid": hid, "mid": s["mid"], "target": "solve", "build": bo["id"]})
                         sh = [handles[-1]]
@@ -451,7 +488,8 @@ def make_run_plan(run_seed: int, profile: str, tier: str = "quick", overrides: d
         # "estimation loop": one worker calls one long-lived function again and again with ONE
         # params object of its own that it overwrites in place between the calls
         loops = []
-        for s0, s1 in est_loops:
+        for slist in est_loops:
+            s0 = slist[0]
             if rng.random() < 0.75:
                 w = rng.randrange(n_workers)
                 if s0["kind"] == "SOLVE":
@@ -465,14 +503,18 @@ def make_run_plan(run_seed: int, profile: str, tier: str = "quick", overrides: d
                     continue
                 hnd = rng.choice(hs)
                 pattern = rng.choice([[0, 1], [0, 1, 0], [1, 0, 1], [0, 1, 0, 1]])
+                k = len(slist)
                 if s0["kind"] == "SOLVE" and hnd.get("jit") and rng.random() < P.get("long_loop_p", 0.5):
                     # a long estimation loop on a compiled function (a call costs milliseconds): deep
                     # call histories, bounded caches, counters, recycled object ids
-                    pattern = [rng.randrange(2) for _ in range(rng.randint(12, 40))]
-                loops.append((s0, s1, w, hnd, rng.choice(["float", "float", "np0d", "np", "int"]), pattern))
+                    pattern = _loop_pattern(rng, k, rng.randint(12, 40))
+                elif k > 2:
+                    pattern = _loop_pattern(rng, k, rng.randint(5, 9) if s0["kind"] == "SIM" else rng.randint(5, 12))
+                loops.append((slist, w, hnd, rng.choice(["float", "float", "np0d", "np", "int"]), pattern))
 
         def emit_loop(lp, tag):
-            s0, s1, w, hnd, mleaf, pattern = lp
+            slist, w, hnd, mleaf, pattern = lp
+            s0 = slist[0]
             key = f"E{inc_index}_{tag}w{w}:{s0['mid']}"
             first = True
             # an interrupted estimation loop: one of the later calls fails, the caller repeats it
@@ -481,7 +523,7 @@ def make_run_plan(run_seed: int, profile: str, tier: str = "quick", overrides: d
             vf_mode = s0["kind"] == "SIM" and rng.random() < 0.4
             vkey = f"V{inc_index}_{tag}w{w}:{s0['mid']}"
             for pos, which in enumerate(pattern):
-                s = (s0, s1)[which]
+                s = slist[which]
                 if not first:
                     ops.append({"id": b.oid(), "kind": "MUTATE", "worker": w, "obj": ["params", key], "to": s["pid"], "leaf": mleaf, "model_id": s["mid"]})
                 op = make_call(s, w, mleaf, hnd=hnd, prefer_inline_solve=not vf_mode, force_v=vf_mode)
@@ -504,6 +546,14 @@ def make_run_plan(run_seed: int, profile: str, tier: str = "quick", overrides: d
         for k in range(n_ops):
             if k in loop_at:
                 emit_loop(loops[loop_at[k]], loop_at[k])
+            if k > 0 and rng.random() < P.get("late_build_p", 0.15) and len(handles) < 8:
+                # a function object built in the middle of the session (same model, same or other flags):
+                # the calls before and after it on the older objects must not notice
+                src_h = rng.choice(handles)
+                hid = f"h{inc_index}_L{len(handles)}"
+                bo = build_op(hid, src_h["mid"], rng.choice([src_h["target"], "solve_and_simulate", "solve"]), jit=rng.random() < 0.6, debug=rng.random() < debug_p, worker=rng.randrange(n_workers))
+                ops.append(bo)
+                handles.append({"hid": hid, "mid": src_h["mid"], "target": bo["target"], "build": bo["id"], "jit": bo["jit"]})
             s = rng.choice(sigs)
             w = rng.randrange(n_workers)
             leaf = rng.choice(["float", "np", "np0d", "jax", "int", "npint", "jaxint"]) if extras["retype"] else default_leaf
@@ -520,6 +570,8 @@ def make_run_plan(run_seed: int, profile: str, tier: str = "quick", overrides: d
                 priv[key] = (s["pid"], mleaf)
                 op["pobj"] = key
                 op["leaf"] = mleaf
+            if extras["transient"] and not op.get("pobj") and rng.random() < 0.6:
+                op["transient"] = True  # arguments built for this call only (their ids get recycled)
             ops.append(op)
             if extras["clear_caches"] and rng.random() < 0.12:
                 ops.append({"id": b.oid(), "kind": "CLEAR_CACHES", "worker": w})
@@ -716,7 +768,7 @@ def make_run_plan(run_seed: int, profile: str, tier: str = "quick", overrides: d
         "swarm": {
             "n_models": n_models, "n_workers": n_workers, "fault_kinds": fault_kinds, "extras": extras,
             "restart": restart, "spy": spy, "quanta": quanta_mix, "fresh_ref": fresh_ref, "leaf": default_leaf,
-            "iso_ref": sorted(iso_models),
+            "iso_ref": sorted(iso_models), "debug_p": debug_p,
         },
     }
 
